@@ -284,6 +284,11 @@ def _validate():
     return n
 
 
+def _mpas(oid, dual):
+    from . import c01
+    return c01.make_mpas(oid, dual)
+
+
 def obligations(tier):
     T = ("thorough",)
     obs = [
@@ -295,6 +300,7 @@ def obligations(tier):
         make_node("C03.node_face.2f3", 2, 3, 4),
         make_node("C03.node_face.2f34.n4", 2, 4, 4, sizes=[3, 4], cost=3),
         make_supplied("C03.supplied"),
+        _mpas("C03.mpas.primal", False), _mpas("C03.mpas.dual", True),       # incidence tables shipped by the source (MPAS) are decoded, not rebuilt
         # thorough: every padding layout of 2 faces <= 4 corners, 3 triangles, larger node_face scopes
         make_edge("C03.edge_face.2f4", 2, 4, 6, ["edge_face"], tiers=T, cost=20),
         make_edge("C03.hole.2f4", 2, 4, 6, ["hole"], tiers=T, cost=20),
